@@ -676,6 +676,7 @@ type mediaSection struct {
 	sctpInit        []byte
 	matchExtensions map[string]int
 	rids            []*simulcastRid
+	rejected        *sdp.MediaDescription // remote m-section we cannot use: answered with port 0
 }
 
 func bundleMatchFromRemote(matchBundleGroup *string) func(mid string) bool {
@@ -736,6 +737,22 @@ func populateSDP(
 
 		shouldAddID := true
 		shouldAddCandidates := i == 0
+		if section.rejected != nil {
+			descr.WithMedia(&sdp.MediaDescription{
+				MediaName: sdp.MediaName{
+					Media:   section.rejected.MediaName.Media,
+					Port:    sdp.RangedPort{Value: 0},
+					Protos:  section.rejected.MediaName.Protos,
+					Formats: section.rejected.MediaName.Formats,
+				},
+				ConnectionInformation: &sdp.ConnectionInformation{
+					NetworkType: "IN", AddressType: "IP4", Address: &sdp.Address{Address: "0.0.0.0"},
+				},
+				Attributes: []sdp.Attribute{{Key: sdp.AttrKeyMID, Value: section.id}},
+			})
+
+			continue
+		}
 		if section.data {
 			if err = addDataMediaSection(
 				descr,
